@@ -92,6 +92,7 @@ fn main() {
         "c07_journal_parse" => c07::journal_parse(&v),
         "c07_state_read" => c07::state_read(&v),
         "c07_post_hook_journal" => c07::post_hook_journal(&v),
+        "c07_storage_ctor" => c07::storage_ctor(&v),
         "c07_pre_commit_refusal" => c07::pre_commit_refusal(&v),
         "c08_policy" => c08::policy(&v),
         "c08_prepare" => c08::prepare(&v),
